@@ -3,10 +3,10 @@
    Model: Net/Tls.v ([verify] = makeVerifier, [tls_handshake] = crypto/tls
    around it, [router_accepts] = receiveServerIdentity, [link] = which identity
    the router stamps on dispatched messages).  [pinned] is the rule of the
-   pinned tree; [fix_f09] and [fix_bind] are the two repairs. *)
+   pinned tree; [fix_f09], [fix_bind] and [fix_nokey] are the three repairs. *)
 From Coq Require Import List Arith ZArith Bool.
 Import ListNotations.
-From Onet Require Import Net.Tls Net.TlsProofs.
+From Onet Require Import Base.Corr Net.Tls Net.TlsProofs Corr.C08 Net.TlsCorrProofs.
 
 (* --- the verifier, clause by clause --------------------------------------- *)
 
@@ -147,7 +147,7 @@ Proof. exact dial_reaches_expected_fixed. Qed.
 Print Assumptions c08_dial_reaches_expected.
 
 Example c08_dial_reaches_expected_nonvacuous :
-  verify (mkfixes true true) Ed25519 0 0 (Some 2)
+  verify (mkfixes true true true) Ed25519 0 0 (Some 2)
          [RawOne (mkcert (pub_to_cn 2) [URI true true (pub_to_cn 2)] (Some (SigBy 2 0 (pub_to_cn 2) (Some 5)))
                          5 SgSelf (-300) 7200 true false)] = Accept.
 Proof. exact dial_reaches_expected_fixed_nonvacuous. Qed.
@@ -203,6 +203,28 @@ Theorem c08_no_dispatch_without_handshake : forall fx lv r s h id msgs,
 Proof. exact no_dispatch_without_handshake. Qed.
 Print Assumptions c08_no_dispatch_without_handshake.
 
+(* --- the honest process survives ------------------------------------------- *)
+
+(* F29: in the pinned code a peer that proves its own key and then sends an
+   identity message without the public-key field kills the process *)
+Theorem c08_identity_without_key_crash_refuted :
+  exists h msgs, out_crash (link pinned LTls RAccept Ed25519 h IdNoKey msgs) = true /\
+                 tls_handshake pinned Ed25519 0 0 None h = Accept.
+Proof. exact crash_refuted. Qed.
+Print Assumptions c08_identity_without_key_crash_refuted.
+
+(* that is the only crashing input of the model ... *)
+Theorem c08_crash_only_without_key : forall fx lv r s h id msgs,
+  out_crash (link fx lv r s h id msgs) = true -> id = IdNoKey /\ r = RAccept /\ fix_nokey fx = false.
+Proof. exact crash_only_without_key. Qed.
+Print Assumptions c08_crash_only_without_key.
+
+(* ... and it is gone once such an identity is refused *)
+Theorem c08_no_crash_fixed : forall fx lv r s h id msgs,
+  fix_nokey fx = true -> out_crash (link fx lv r s h id msgs) = false.
+Proof. exact no_crash_fixed. Qed.
+Print Assumptions c08_no_crash_fixed.
+
 (* --- the property itself ----------------------------------------------------- *)
 
 (* the boolean checker evaluated on every observation = the property *)
@@ -216,46 +238,69 @@ Print Assumptions c08_checker_is_the_property.
 Theorem c08_pinned_violates_property_f09 :
   let h := Hello [RawOne f09_witness] 0 in
   let o := link pinned LTls (RDial 1) Ed25519 h IdMatch 2 in
-  prop_check LTls (RDial 1) Ed25519 [2; 3] h IdMatch (out_hs o) (out_disp o) (out_stamp o) false = [3; 4].
+  prop_check LTls (RDial 1) Ed25519 [2; 3] h IdMatch (out_hs o) (out_disp o) (out_stamp o) (out_crash o) = [3; 4].
 Proof. exact pinned_link_violates_property_f09. Qed.
 Print Assumptions c08_pinned_violates_property_f09.
 
 Theorem c08_pinned_violates_property_relay :
   let h := Hello [RawOne relay_witness] 0 in
   (let o := link pinned LTls (RDial 1) Ed25519 h IdMatch 2 in
-   prop_check LTls (RDial 1) Ed25519 [2; 3] h IdMatch (out_hs o) (out_disp o) (out_stamp o) false = [1; 4]) /\
+   prop_check LTls (RDial 1) Ed25519 [2; 3] h IdMatch (out_hs o) (out_disp o) (out_stamp o) (out_crash o) = [1; 4]) /\
   (let o := link pinned LTls RAccept Ed25519 h IdMatch 2 in
-   prop_check LTls RAccept Ed25519 [2; 3] h IdMatch (out_hs o) (out_disp o) (out_stamp o) false = [1; 4]).
+   prop_check LTls RAccept Ed25519 [2; 3] h IdMatch (out_hs o) (out_disp o) (out_stamp o) (out_crash o) = [1; 4]).
 Proof. exact pinned_link_violates_property_relay. Qed.
 Print Assumptions c08_pinned_violates_property_relay.
 
-(* the model with both repairs satisfies it for every peer bound by
+Theorem c08_pinned_violates_property_nokey :
+  let h := Hello [RawOne (honest_cert 2 0)] 0 in
+  let o := link pinned LTls RAccept Ed25519 h IdNoKey 2 in
+  prop_check LTls RAccept Ed25519 [2; 3] h IdNoKey (out_hs o) (out_disp o) (out_stamp o) (out_crash o) = [6].
+Proof. exact pinned_link_violates_property_nokey. Qed.
+Print Assumptions c08_pinned_violates_property_nokey.
+
+(* the model with all repairs satisfies it for every peer bound by
    unforgeability, every chain, identity message, role, suite, message count *)
 Theorem c08_repaired_link_satisfies_property : forall holds own_tls htls r s h id msgs,
   (forall k, ~ In k holds -> own_tls (htls k) = false) ->
-  let fx := mkfixes true true in
+  let fx := mkfixes true true true in
   presentable fx holds own_tls htls h ->
   let o := link fx LTls r s h id msgs in
-  link_property LTls r s holds h id (out_hs o) (out_disp o) (out_stamp o) false.
+  link_property LTls r s holds h id (out_hs o) (out_disp o) (out_stamp o) (out_crash o).
 Proof. exact repaired_link_satisfies_property. Qed.
 Print Assumptions c08_repaired_link_satisfies_property.
 
 Example c08_repaired_link_nonvacuous :
-  let fx := mkfixes true true in
+  let fx := mkfixes true true true in
   let c := mkcert (pub_to_cn 2) [URI true true (pub_to_cn 2)] (Some (SigBy 2 0 (pub_to_cn 2) (Some 0)))
                   0 SgSelf (-300) 7200 true false in
   presentable fx [2; 3] (fun t => t <? 2) (fun _ => 9) (Hello [RawOne c] 0) /\
-  link fx LTls (RDial 2) Ed25519 (Hello [RawOne c] 0) IdMatch 2 = mkout true 2 [2; 2] /\
-  link fx LTls RAccept Ed25519 (Hello [RawOne c] 0) IdMatch 2 = mkout true 2 [2; 2].
+  link fx LTls (RDial 2) Ed25519 (Hello [RawOne c] 0) IdMatch 2 = mkout true 2 [2; 2] false /\
+  link fx LTls RAccept Ed25519 (Hello [RawOne c] 0) IdMatch 2 = mkout true 2 [2; 2] false.
 Proof. exact repaired_link_nonvacuous. Qed.
 Print Assumptions c08_repaired_link_nonvacuous.
 
 (* with the small repair alone (F09; the one proposed as a patch) the property
    holds against every peer that does not relay an honest holder's proof *)
 Theorem c08_f09_repaired_satisfies_property_without_relay : forall holds r s h id msgs,
-  let fx := mkfixes true false in
+  let fx := mkfixes true false true in
   signs_only_with_own_keys holds h ->
   let o := link fx LTls r s h id msgs in
-  link_property LTls r s holds h id (out_hs o) (out_disp o) (out_stamp o) false.
+  link_property LTls r s holds h id (out_hs o) (out_disp o) (out_stamp o) (out_crash o).
 Proof. exact f09_repaired_link_satisfies_property_without_relay. Qed.
 Print Assumptions c08_f09_repaired_satisfies_property_without_relay.
+
+(* --- what the correspondence step establishes -------------------------------- *)
+
+(* an empty [viol] of a cases file = every recorded run of the implementation
+   satisfies the property *)
+Theorem c08_violations_nil_iff : forall l : list case,
+  violations l = [] <-> forall c, In c l -> case_property c.
+Proof. exact violations_nil_iff. Qed.
+Print Assumptions c08_violations_nil_iff.
+
+(* an empty [mism] = the model predicted handshake verdict, dispatch count,
+   stamped keys and crash of every recorded run *)
+Theorem c08_mismatches_nil_iff : forall l : list case,
+  mismatches l = [] <-> forall c, In c l -> case_model c = case_observed c.
+Proof. exact mismatches_nil_iff. Qed.
+Print Assumptions c08_mismatches_nil_iff.
